@@ -154,6 +154,15 @@ def check(case):
         if bad:
             # a model with pi inside a trigonometric argument is in the territory of the known sympy problem (never a general model)
             kind = "trig-of-unevaluated-sum-with-pi" if ref.has_pi_in_trig() else cm.main_feature(text, ["d" + k + "_dt" for k in bad])
+            if kind != "trig-of-unevaluated-sum-with-pi":
+                # does the generated value follow the text with every non-strict inequality read as a strict one?  (the point then sits exactly
+                # on the boundary of a Ge / Le: _print_Piecewise's sympy.simplify turns `a >= -1*0.1` into `a > -0.1`)
+                try:
+                    alt, _ = ref.rhs(pt["t"], pt["states"], pt["params"], strict_rel=True)
+                    if all(cm.vclose(bad[n], alt[n], scale) for n in bad):
+                        kind = "non-strict-inequality-read-as-strict-on-its-boundary"
+                except Exception:  # noqa: BLE001
+                    pass
             n0 = sorted(bad)[0]
             add(f"C01:rhs-mismatch:{kind}", f"rhs value of d{n0}_dt differs from the reference meaning of `{ref.assigns['d' + n0 + '_dt'].expr_text[:80]}`", inp,
                 {k: want[k] for k in bad}, bad, f"generated line(s): {gen_lines(code, ['d' + k + '_dt' for k in bad])}", base="C01:rhs-mismatch")
